@@ -21,11 +21,14 @@ WALL_LIMIT = {"quick": 1200, "thorough": 5 * 3600}
 PROBES = ["expand_twice", "shrink_after_expand", "copy_then_diverge", "validate_in_expanded_state",
           "handwritten_exact", "handwritten_permuted", "handwritten_altered", "placeholder_def_used", "nested_def_depth2plus",
           "same_def_twice_in_one_string", "acceptance_rejected", "acceptance_duplicate", "df_expand", "df_shrink",
-          "remove_definitions"]
+          "remove_definitions", "several_definitions_in_one_string", "valid_definition_after_rejected_one_in_string",
+          "dictionaries_merged"]
 RULE = ("Each run generates 1-4 definitions (with/without '/#', nested content, unit-carrying placeholder) and 1-3 "
         "annotations using Def/Name[/v] at depth 0-3 plus hand-written Def-expand groups (exact, sibling-permuted, "
         "altered), then executes 4-20 seeded operations over the pool of live objects; every 8th run is an acceptance "
-        "scenario (seeded accepted and rejectable definition strings).  Non-trivial: the history contains a repeated "
+        "scenario (seeded accepted and rejectable definition strings, one or several per annotation string, then two "
+        "dictionaries built from the accepted halves are merged twice - list, validator or single form - with additions "
+        "to the merged object in between).  Non-trivial: the history contains a repeated "
         "expand, a shrink after an expand, or an operation on an object after it was copied.  Distinct = distinct "
         "sha-256 of (scenario, per-step library renderings).")
 COMPONENTS = {"real": ["HedString.expand_defs/shrink_defs/copy/remove_definitions/sorted/get_as_*", "HedTag.expandable/expanded",
@@ -169,6 +172,9 @@ def _gen_content(g, depth=0, placeholder=None):
     kids = [["t", t] for t in g.sample(PLAIN, n)]
     if depth < 2 and g.chance(0.45):
         kids.insert(g.randrange(len(kids) + 1), _gen_content(g, depth + 1))
+        if g.chance(0.4):
+            # a second sibling group: the canonical order of siblings then depends on their (sorted) insides
+            kids.insert(g.randrange(len(kids) + 1), _gen_content(g, depth + 1))
     node = ["g", kids]
     return node
 
@@ -344,7 +350,11 @@ def generate(run_index, seed, tier):
             else:
                 dup = _case_variant(g, g.pick(used))
                 items.append({"text": "(Definition/%s, (Orange))" % dup, "expect": "duplicate", "name": dup})
-        return {"kind": "acceptance", "items": items}
+        # several definitions may arrive in ONE annotation string (each is judged on its own)
+        for i in range(1, len(items)):
+            items[i]["join"] = g.chance(0.35)
+        return {"kind": "acceptance", "items": items, "merge_split": g.randrange(0, len(items) + 1),
+                "merge_via": g.pick(["list", "list", "validator", "single"])}
     defs = _gen_defs(g)
     stats = []
     anns = [_gen_annotation(g, defs, stats) for _ in range(g.randint(1, 3))]
@@ -621,39 +631,113 @@ def _execute_acceptance(W, sc):
     violations, probes, trace = [], {}, []
     dd = W["DefinitionDict"]()
     accepted = {}
+    groups = []
     for it in sc["items"]:
+        if it.get("join") and groups:
+            groups[-1].append(it)
+        else:
+            groups.append([it])
+    for grp in groups:
+        text = ", ".join(it["text"] for it in grp)
+        if len(grp) > 1:
+            probes["several_definitions_in_one_string"] = probes.get("several_definitions_in_one_string", 0) + 1
+            kinds = [it["expect"] for it in grp]
+            if "accept" in kinds[1:] and any(k != "accept" for k in kinds[:kinds.index("accept", 1)]):
+                probes["valid_definition_after_rejected_one_in_string"] = \
+                    probes.get("valid_definition_after_rejected_one_in_string", 0) + 1
         try:
-            issues = dd.check_for_definitions(HedString(it["text"], schema))
+            issues = dd.check_for_definitions(HedString(text, schema))
         except Exception as e:  # noqa
             violations.append(Violation("no-exception", "check_for_definitions(%r) raised %s: %s"
-                                        % (it["text"], type(e).__name__, str(e)[:200]),
+                                        % (text, type(e).__name__, str(e)[:200]),
                                         "acceptance-%s" % type(e).__name__).record(PROP))
             break
-        key = it["name"].casefold()
-        trace.append([it["text"], sorted(dd.defs), [i.get("code") for i in issues]])
-        if it["expect"] == "accept":
-            accepted[key] = it["text"]
-            if key not in dd.defs or issues:
-                violations.append(Violation("acceptance", "well-formed definition %r was not accepted (issues %s)"
-                                            % (it["text"], [i.get("code") for i in issues]), "valid-definition-rejected").record(PROP))
-        elif it["expect"] == "reject":
-            probes["acceptance_rejected"] = probes.get("acceptance_rejected", 0) + 1
-            if (key in dd.defs and key not in accepted) or not issues:
-                violations.append(Violation("acceptance", "definition %r breaks rule %r but %s"
-                                            % (it["text"], it["kind"], "was accepted" if key in dd.defs else "no issue was reported"),
-                                            "invalid-definition-accepted-%s" % it["kind"]).record(PROP))
-        else:
-            probes["acceptance_duplicate"] = probes.get("acceptance_duplicate", 0) + 1
-            stored = str(dd.defs[key].contents) if key in dd.defs else None
-            if not issues:
-                violations.append(Violation("acceptance", "duplicate definition %r was not reported" % it["text"],
-                                            "duplicate-not-reported").record(PROP))
-            elif stored is not None and "Orange" in stored:
-                violations.append(Violation("acceptance", "duplicate definition %r replaced the first one" % it["text"],
-                                            "duplicate-not-ignored").record(PROP))
+        trace.append([text, sorted(dd.defs), [i.get("code") for i in issues]])
+        all_ok = all(it["expect"] == "accept" for it in grp)
+        for it in grp:
+            key = it["name"].casefold()
+            if it["expect"] == "accept":
+                accepted[key] = it["text"]
+                if key not in dd.defs or (issues and all_ok):
+                    violations.append(Violation("acceptance", "well-formed definition %r (in %r) was not accepted (issues %s)"
+                                                % (it["text"], text, [i.get("code") for i in issues]),
+                                                "valid-definition-rejected").record(PROP))
+            elif it["expect"] == "reject":
+                probes["acceptance_rejected"] = probes.get("acceptance_rejected", 0) + 1
+                if (key in dd.defs and key not in accepted) or not issues:
+                    violations.append(Violation("acceptance", "definition %r breaks rule %r but %s"
+                                                % (it["text"], it["kind"], "was accepted" if key in dd.defs else "no issue was reported"),
+                                                "invalid-definition-accepted-%s" % it["kind"]).record(PROP))
+            else:
+                probes["acceptance_duplicate"] = probes.get("acceptance_duplicate", 0) + 1
+                stored = str(dd.defs[key].contents) if key in dd.defs else None
+                if not issues:
+                    violations.append(Violation("acceptance", "duplicate definition %r was not reported" % it["text"],
+                                                "duplicate-not-reported").record(PROP))
+                elif stored is not None and "Orange" in stored:
+                    violations.append(Violation("acceptance", "duplicate definition %r replaced the first one" % it["text"],
+                                                "duplicate-not-ignored").record(PROP))
         if set(dd.defs) != set(accepted):
             violations.append(Violation("acceptance", "dictionary holds %s, accepted so far %s" % (sorted(dd.defs), sorted(accepted)),
                                         "dictionary-content-differs").record(PROP))
         if violations:
             break
+    if not violations:
+        _merge_history(W, sc, violations, probes, trace)
     return _result(sc, violations, probes, trace, True)
+
+
+def _merge_history(W, sc, violations, probes, trace):
+    """Dictionaries built from two halves of the accepted definitions are merged (DefinitionDict([d1, d2]), a validator
+    given both, or DefinitionDict(d1)), something more is added to the merged object, and the sources are used again:
+    each source must still hold exactly what it accepted, and merging the same sources again gives the same report."""
+    HedString, schema, DD = W["HedString"], W["schema"], W["DefinitionDict"]
+    ok = [it for it in sc["items"] if it["expect"] == "accept"]
+    k = min(sc.get("merge_split", 0), len(ok))
+    parts = [ok[:k], ok[k:]]
+    if not ok:
+        return
+    srcs, held = [], []
+    try:
+        for part in parts:
+            d = DD()
+            names = set()
+            for it in part:
+                if it["name"].casefold() not in names:
+                    d.check_for_definitions(HedString(it["text"], schema))
+                    names.add(it["name"].casefold())
+            srcs.append(d)
+            held.append(sorted(d.defs))
+        # one name of the first half is defined again (differently) in the second: a reported duplicate on merging
+        if parts[0] and sc.get("merge_via") != "single":
+            nm = parts[0][0]["name"]
+            if nm.casefold() not in srcs[1].defs:
+                srcs[1].check_for_definitions(HedString("(Definition/%s, (Orange))" % nm, schema))
+                held[1] = sorted(srcs[1].defs)
+        via = sc.get("merge_via", "list")
+        reports = []
+        for _round in range(2):
+            if via == "single":
+                m = DD(srcs[0])
+            elif via == "validator":
+                v = W["HedValidator"](schema, def_dicts=[srcs[0], srcs[1]])
+                m = v._def_validator
+            else:
+                m = DD([srcs[0], srcs[1]])
+            reports.append(len(getattr(m, "issues", []) or []))
+            m.check_for_definitions(HedString("(Definition/AddedLater%d, (Purple))" % _round, schema))
+            probes["dictionaries_merged"] = probes.get("dictionaries_merged", 0) + 1
+            for i, d in enumerate(srcs):
+                if sorted(d.defs) != held[i]:
+                    violations.append(Violation(
+                        "acceptance", "after merging (%s) and adding to the merged dictionary, source dictionary %d holds %s "
+                        "but accepted only %s" % (via, i, sorted(d.defs), held[i]), "merge-changes-source-dictionary").record(PROP))
+                    return
+        if reports[0] != reports[1]:
+            violations.append(Violation("acceptance", "merging the same two dictionaries twice reported %d then %d issues"
+                                        % (reports[0], reports[1]), "merge-report-not-repeatable").record(PROP))
+        trace.append(["merge", via, held, reports])
+    except Exception as e:  # noqa
+        violations.append(Violation("no-exception", "merging definition dictionaries (%s) raised %s: %s"
+                                    % (sc.get("merge_via"), type(e).__name__, str(e)[:200]),
+                                    "merge-%s" % type(e).__name__).record(PROP))
